@@ -33,6 +33,13 @@
 (*   AllFieldMatchers     matches() goes on after a predicate     (F12-3)  *)
 (*   TicketBeforeRegister a command whose matcher value is produced by     *)
 (*                        send() has it when the waiter is built  (F12-4)  *)
+(*   LiveListAtCompletion the completion loop walks the waiter list as it  *)
+(*                        is AFTER the handlers / listeners of the message *)
+(*                        ran (they may suspend), testing done() there;    *)
+(*                        FALSE: the not-done waiters are collected when   *)
+(*                        the message comes in, before its handlers run    *)
+(*                        (not the pinned code: a design that was tried    *)
+(*                        against the check, seeded change C12-b2)         *)
 (***************************************************************************)
 EXTENDS Naturals, Sequences, FiniteSets, TLC
 
@@ -45,8 +52,9 @@ CONSTANTS
   MaxFeeds,         \* total number of messages fed
   MaxBatch,         \* frames per write (handled back-to-back by one reader step)
   MaxCancel, MaxDue, MaxSendFail,
+  MaxSlow,          \* messages whose handling suspends in a listener of MessageReceivedEvent
   SendHops,         \* loop slots execute() spends in command.send() (gather + drain: 4)
-  SkipDoneFutures, GuardSetException, AllFieldMatchers, TicketBeforeRegister
+  SkipDoneFutures, GuardSetException, AllFieldMatchers, TicketBeforeRegister, LiveListAtCompletion
 
 \* ---------------------------------------------------------------------------
 \* Matching, transcribed from the property statement: expected type, expected
@@ -92,10 +100,15 @@ VARIABLES
   armed,     \* the caller is inside its timeout context, timer pending
   sfail,     \* the caller's send() is going to fail
   dead,      \* connections closed by a failed send (DataConnection._send -> disconnect(WRITE_ERROR))
-  nfed, ncancel, ndue, nsf,
+  susp,      \* per connection: <<>>, or <<[m, idx, snap, rel]>>: the reader is suspended inside
+             \*   on_message_received for message m (= hist[idx]), in a listener that waits to be released;
+             \*   snap: the waiters that were not done when m came in; rel: the release is on its way
+  nfed, ncancel, ndue, nsf, nslow,
   \* observation
-  hist,      \* messages in the order the client handled them
-  regAt,     \* per caller: 0, or index in hist of the first message handled after it asked
+  hist,      \* messages in the order the client started handling them
+  fin,       \* indexes in hist of the messages whose handling is finished (waiters completed)
+  regAt,     \* per caller: 0, or index in hist of the first message that came in after it asked
+  infl,      \* per caller: the messages that were being handled (come in, not finished) when it asked
   cspec,     \* per caller: what it asked for [conn, cls, m1, m2, api, late]
   out,       \* per caller: [kind |-> "none" | "result" | "exc", j |-> index in hist, exc |-> class name]
   outN,      \* per caller: number of outcomes seen
@@ -104,9 +117,9 @@ VARIABLES
   broken,    \* number of messages whose handling raised ("error during callback")
   quiet      \* this state is a quiescent observation point
 
-mech == <<ready, dueNow, buf, rsched, lst, wst, wres, wspec, cpc, creq, mustc, expiring, armed, sfail, dead,
-          nfed, ncancel, ndue, nsf>>
-obs  == <<hist, regAt, cspec, out, outN, stim, resid, broken, quiet>>
+mech == <<ready, dueNow, buf, rsched, lst, wst, wres, wspec, cpc, creq, mustc, expiring, armed, sfail, dead, susp,
+          nfed, ncancel, ndue, nsf, nslow>>
+obs  == <<hist, fin, regAt, infl, cspec, out, outN, stim, resid, broken, quiet>>
 vars == <<mech, obs>>
 
 Conns == {"S", "P1", "P2"}
@@ -119,7 +132,9 @@ NoOut == [kind |-> "none", j |-> 0, exc |-> ""]
 
 ObsInit ==
   /\ hist = <<>>
+  /\ fin = {}
   /\ regAt = [c \in Callers |-> 0]
+  /\ infl = [c \in Callers |-> {}]
   /\ cspec = [c \in Callers |-> NoSpec]
   /\ out = [c \in Callers |-> NoOut]
   /\ outN = [c \in Callers |-> 0]
@@ -132,35 +147,38 @@ ObsInit ==
 ObsAsk(c, s, fails) ==
   /\ regAt[c] = 0
   /\ regAt' = [regAt EXCEPT ![c] = Len(hist) + 1]
+  /\ infl' = [infl EXCEPT ![c] = (1..Len(hist)) \ fin]
   /\ cspec' = [cspec EXCEPT ![c] = s]
   /\ stim' = [stim EXCEPT ![c] = IF fails THEN @ \cup {"sendfail"} ELSE @]
   /\ quiet' = FALSE
-  /\ UNCHANGED <<hist, out, outN, resid, broken>>
+  /\ UNCHANGED <<hist, fin, out, outN, resid, broken>>
 
-\* the client handled messages ms (in order); nerr of them raised
-ObsHandled(ms, nerr) ==
+\* messages ms came in (their handlers / listeners start, in order); the handling of the messages
+\* with indexes js finished (their waiters were completed); nerr of those raised
+ObsHandled(ms, js, nerr) ==
   /\ hist' = hist \o ms
+  /\ fin' = fin \cup js
   /\ broken' = broken + nerr
   /\ quiet' = FALSE
-  /\ UNCHANGED <<regAt, cspec, out, outN, stim, resid>>
+  /\ UNCHANGED <<regAt, infl, cspec, out, outN, stim, resid>>
 
 ObsOutcome(c, o) ==
   /\ out' = [out EXCEPT ![c] = IF outN[c] = 0 THEN o ELSE @]
   /\ outN' = [outN EXCEPT ![c] = @ + 1]
   /\ quiet' = FALSE
-  /\ UNCHANGED <<hist, regAt, cspec, stim, resid, broken>>
+  /\ UNCHANGED <<hist, fin, regAt, infl, cspec, stim, resid, broken>>
 
 ObsStim(c, what) ==
   /\ stim' = [stim EXCEPT ![c] = @ \cup {what}]
   /\ quiet' = FALSE
-  /\ UNCHANGED <<hist, regAt, cspec, out, outN, resid, broken>>
+  /\ UNCHANGED <<hist, fin, regAt, infl, cspec, out, outN, resid, broken>>
 
 ObsQuiet(ndone) ==
   /\ quiet' = TRUE
   /\ resid' = ndone
-  /\ UNCHANGED <<hist, regAt, cspec, out, outN, stim, broken>>
+  /\ UNCHANGED <<hist, fin, regAt, infl, cspec, out, outN, stim, broken>>
 
-ObsSame == UNCHANGED <<hist, regAt, cspec, out, outN, stim, resid, broken>> /\ quiet' = FALSE
+ObsSame == UNCHANGED <<hist, fin, regAt, infl, cspec, out, outN, stim, resid, broken>> /\ quiet' = FALSE
 
 \* ---------------------------------------------------------------------------
 Init ==
@@ -179,7 +197,8 @@ Init ==
   /\ armed = [c \in Callers |-> FALSE]
   /\ sfail = [c \in Callers |-> FALSE]
   /\ dead = {}
-  /\ nfed = 0 /\ ncancel = 0 /\ ndue = 0 /\ nsf = 0
+  /\ susp = [x \in Conns |-> <<>>]
+  /\ nfed = 0 /\ ncancel = 0 /\ ndue = 0 /\ nsf = 0 /\ nslow = 0
   /\ ObsInit
 
 AtD == Head(ready) = D
@@ -208,18 +227,34 @@ Reg(c, s, api, fails) ==
   /\ nsf' = IF fails THEN nsf + 1 ELSE nsf
   /\ ready' = Append(ready, [k |-> "first", c |-> c])
   /\ quiet' = FALSE
-  /\ UNCHANGED <<dueNow, buf, rsched, lst, wst, wres, wspec, creq, mustc, expiring, armed, dead, nfed, ncancel, ndue,
-                 hist, regAt, out, outN, stim, resid, broken>>
+  /\ UNCHANGED <<dueNow, buf, rsched, lst, wst, wres, wspec, creq, mustc, expiring, armed, dead, susp, nfed, ncancel, ndue, nslow,
+                 hist, fin, regAt, infl, out, outN, stim, resid, broken>>
 
 \* one write of several frames on one connection -> one feed_data handle
+\* sl: 0, or the number of the frame whose handling will suspend in a listener
 Batches == UNION {[1..n -> Msgs] : n \in 1..MaxBatch}
-Feed(b) ==
+Feed(b, sl) ==
   /\ MayAct
   /\ nfed + Len(b) <= MaxFeeds
   /\ \A i \in 1..Len(b) : b[i].conn = b[1].conn
-  /\ ready' = Append(ready, [k |-> "feed", conn |-> b[1].conn, ms |-> b])
+  /\ sl \in 0..Len(b)
+  /\ sl > 0 => nslow < MaxSlow
+  /\ ready' = Append(ready, [k |-> "feed", conn |-> b[1].conn,
+                              ms |-> [i \in 1..Len(b) |-> [m |-> b[i], slow |-> (i = sl)]]])
   /\ nfed' = nfed + Len(b)
-  /\ UNCHANGED <<dueNow, buf, rsched, lst, wst, wres, wspec, cpc, creq, mustc, expiring, armed, sfail, dead, ncancel, ndue, nsf>>
+  /\ nslow' = IF sl > 0 THEN nslow + 1 ELSE nslow
+  /\ UNCHANGED <<dueNow, buf, rsched, lst, wst, wres, wspec, cpc, creq, mustc, expiring, armed, sfail, dead, susp, ncancel, ndue, nsf>>
+  /\ ObsSame
+
+\* the application lets the suspended listener go on (asyncio.Event.set(): the reader task's
+\* wake-up goes to the tail of ready)
+Release(conn) ==
+  /\ MayAct
+  /\ susp[conn] # <<>> /\ ~susp[conn][1].rel
+  /\ susp' = [susp EXCEPT ![conn] = <<[@[1] EXCEPT !.rel = TRUE]>>]
+  /\ ready' = Append(ready, [k |-> "resume", conn |-> conn])
+  /\ UNCHANGED <<dueNow, buf, rsched, lst, wst, wres, wspec, cpc, creq, mustc, expiring, armed, sfail, dead,
+                 nfed, ncancel, ndue, nsf, nslow>>
   /\ ObsSame
 
 \* Task.cancel() (CPython tasks.py): a task waiting for a pending future cancels the future,
@@ -251,7 +286,7 @@ Cancel(c) ==
   /\ TaskCancel(c, ready)
   /\ ncancel' = ncancel + 1
   /\ ObsStim(c, "cancel")
-  /\ UNCHANGED <<dueNow, buf, rsched, lst, wres, wspec, expiring, armed, sfail, dead, nfed, ndue, nsf>>
+  /\ UNCHANGED <<dueNow, buf, rsched, lst, wres, wspec, expiring, armed, sfail, dead, susp, nfed, ndue, nsf, nslow>>
 
 \* the clock passes the caller's deadline: its timer handle enters ready at the next iteration
 Due(c) ==
@@ -263,7 +298,7 @@ Due(c) ==
   /\ dueNow' = Append(dueNow, c)
   /\ ndue' = ndue + 1
   /\ ObsStim(c, "due")
-  /\ UNCHANGED <<ready, buf, rsched, lst, wst, wres, wspec, cpc, creq, mustc, expiring, armed, sfail, dead, nfed, ncancel, nsf>>
+  /\ UNCHANGED <<ready, buf, rsched, lst, wst, wres, wspec, cpc, creq, mustc, expiring, armed, sfail, dead, susp, nfed, ncancel, nsf, nslow>>
 
 \* nothing but the driver is ready: look at the list (quiescent moment)
 Observe ==
@@ -277,7 +312,7 @@ DStep ==
   /\ Len(ready) > 1 \/ dueNow # <<>>
   /\ ready' = Tail(ready) \o [i \in 1..Len(dueNow) |-> [k |-> "tmo", c |-> dueNow[i]]] \o <<D>>
   /\ dueNow' = <<>>
-  /\ UNCHANGED <<buf, rsched, lst, wst, wres, wspec, cpc, creq, mustc, expiring, armed, sfail, dead, nfed, ncancel, ndue, nsf>>
+  /\ UNCHANGED <<buf, rsched, lst, wst, wres, wspec, cpc, creq, mustc, expiring, armed, sfail, dead, susp, nfed, ncancel, ndue, nsf, nslow>>
   /\ ObsSame
 
 \* ----- the library's handles --------------------------------------------------
@@ -306,7 +341,7 @@ First(c, rest) ==
             /\ armed' = [armed EXCEPT ![c] = TRUE]
             /\ ready' = rest
   /\ ObsAsk(c, cspec[c], sfail[c])
-  /\ UNCHANGED <<dueNow, buf, rsched, wres, creq, mustc, expiring, sfail, dead, nfed, ncancel, ndue, nsf>>
+  /\ UNCHANGED <<dueNow, buf, rsched, wres, creq, mustc, expiring, sfail, dead, susp, nfed, ncancel, ndue, nsf, nslow>>
 
 \* command.send() in progress / finished (client.py:272-283)
 Hop(c, n, rest) ==
@@ -315,28 +350,28 @@ Hop(c, n, rest) ==
     \* the write fails in the first slot of send(): the connection starts closing at once, nothing
     \* that arrives on it afterwards is handled (connection.py:455-469, 299-323)
     /\ dead' = IF sfail[c] /\ n = SendHops - 1 /\ cpc[c] = "sending" THEN dead \cup {cspec[c].conn} ELSE dead
-    /\ UNCHANGED <<dueNow, buf, rsched, lst, wst, wres, wspec, cpc, creq, mustc, expiring, armed, sfail, nfed, ncancel, ndue, nsf>>
+    /\ UNCHANGED <<dueNow, buf, rsched, lst, wst, wres, wspec, cpc, creq, mustc, expiring, armed, sfail, susp, nfed, ncancel, ndue, nsf, nslow>>
     /\ ObsSame
   ELSE IF cpc[c] = "cancelling" THEN      \* CancelledError is not an Exception: the waiter stays registered
     /\ ready' = rest
     /\ Finish(c, [kind |-> "exc", j |-> 0, exc |-> "CancelledError"])
-    /\ UNCHANGED <<dueNow, buf, rsched, lst, wst, wres, wspec, creq, mustc, expiring, sfail, dead, nfed, ncancel, ndue, nsf>>
+    /\ UNCHANGED <<dueNow, buf, rsched, lst, wst, wres, wspec, creq, mustc, expiring, sfail, dead, susp, nfed, ncancel, ndue, nsf, nslow>>
   ELSE IF sfail[c] THEN                    \* except Exception: response_future.cancel(); raise
     /\ IF wst[c] = "pending"
          THEN /\ wst' = [wst EXCEPT ![c] = "cancelled"]
               /\ ready' = Append(rest, [k |-> "rm", c |-> c])
          ELSE /\ ready' = rest /\ UNCHANGED wst
     /\ Finish(c, [kind |-> "exc", j |-> 0, exc |-> "SendError"])
-    /\ UNCHANGED <<dueNow, buf, rsched, lst, wres, wspec, creq, mustc, expiring, sfail, dead, nfed, ncancel, ndue, nsf>>
+    /\ UNCHANGED <<dueNow, buf, rsched, lst, wres, wspec, creq, mustc, expiring, sfail, dead, susp, nfed, ncancel, ndue, nsf, nslow>>
   ELSE IF wst[c] = "result" THEN           \* the reply came during send(): await returns at once
     /\ ready' = rest
     /\ Finish(c, [kind |-> "result", j |-> wres[c], exc |-> ""])
-    /\ UNCHANGED <<dueNow, buf, rsched, lst, wst, wres, wspec, creq, mustc, expiring, sfail, dead, nfed, ncancel, ndue, nsf>>
+    /\ UNCHANGED <<dueNow, buf, rsched, lst, wst, wres, wspec, creq, mustc, expiring, sfail, dead, susp, nfed, ncancel, ndue, nsf, nslow>>
   ELSE
     /\ ready' = rest
     /\ cpc' = [cpc EXCEPT ![c] = "waiting"]
     /\ armed' = [armed EXCEPT ![c] = TRUE]
-    /\ UNCHANGED <<dueNow, buf, rsched, lst, wst, wres, wspec, creq, mustc, expiring, sfail, dead, nfed, ncancel, ndue, nsf>>
+    /\ UNCHANGED <<dueNow, buf, rsched, lst, wst, wres, wspec, creq, mustc, expiring, sfail, dead, susp, nfed, ncancel, ndue, nsf, nslow>>
     /\ ObsSame
 
 \* StreamReader.feed_data: bytes buffered, the reader task woken once
@@ -344,61 +379,92 @@ FeedData(conn, ms, rest) ==
   /\ buf' = [buf EXCEPT ![conn] = @ \o ms]
   /\ IF rsched[conn] THEN ready' = rest /\ UNCHANGED rsched
      ELSE ready' = Append(rest, [k |-> "read", conn |-> conn]) /\ rsched' = [rsched EXCEPT ![conn] = TRUE]
-  /\ UNCHANGED <<dueNow, lst, wst, wres, wspec, cpc, creq, mustc, expiring, armed, sfail, dead, nfed, ncancel, ndue, nsf>>
+  /\ UNCHANGED <<dueNow, lst, wst, wres, wspec, cpc, creq, mustc, expiring, armed, sfail, dead, susp, nfed, ncancel, ndue, nsf, nslow>>
   /\ ObsSame
 
-\* on_message_received, completion loop (network.py:1162-1165) for ONE message, over the list
-\* as it is (removals only happen in later slots).  State threaded: st = [w, r, cb, err]
+\* on_message_received, completion loop (network.py) for ONE message over the list L of waiter ids
+\* (removals only happen in later slots).  State threaded: st = [w, r, cb, err]
 \*   w: waiter status function, r: waiter results, cb: callbacks scheduled, err: raised
-RECURSIVE Complete(_, _, _, _)
-Complete(i, m, idx, st) ==
-  IF i > Len(lst) \/ st.err THEN st
-  ELSE LET x == lst[i] IN
-    IF ~MatchImpl(wspec[x], m) THEN Complete(i + 1, m, idx, st)
+\* skip: a waiter that is done is passed over; otherwise set_result on it raises
+RECURSIVE Complete(_, _, _, _, _, _)
+Complete(i, L, m, idx, st, skip) ==
+  IF i > Len(L) \/ st.err THEN st
+  ELSE LET x == L[i] IN
+    IF ~MatchImpl(wspec[x], m) THEN Complete(i + 1, L, m, idx, st, skip)
     ELSE IF st.w[x] = "pending" THEN
-      Complete(i + 1, m, idx,
+      Complete(i + 1, L, m, idx,
                [st EXCEPT !.w = [@ EXCEPT ![x] = "result"],
                           !.r = [@ EXCEPT ![x] = idx],
                           !.cb = @ \o (IF cpc[x] = "waiting"
                                          THEN <<[k |-> "rm", c |-> x], [k |-> "wake", c |-> x]>>
-                                         ELSE <<[k |-> "rm", c |-> x]>>)])
-    ELSE IF SkipDoneFutures THEN Complete(i + 1, m, idx, st)
+                                         ELSE <<[k |-> "rm", c |-> x]>>)],
+               skip)
+    ELSE IF skip THEN Complete(i + 1, L, m, idx, st, skip)
     ELSE [st EXCEPT !.err = TRUE]          \* set_result on a done future: InvalidStateError leaves the loop
 
-\* one reader step handles every buffered frame back-to-back (readexactly on buffered data
-\* does not suspend; _perform_message_callback swallows and logs the exception)
+\* one reader step handles every buffered frame back-to-back (readexactly on buffered data does
+\* not suspend; _perform_message_callback swallows and logs the exception) - until the handling of
+\* a frame suspends in a listener: the rest stays buffered.
+\* acc = [w, r, cb, nerr, arr (messages come in), fin (indexes finished), stop (0 | k of the suspended frame)]
 RECURSIVE ReadAll(_, _, _)
 ReadAll(ms, k, acc) ==
   IF k > Len(ms) THEN acc
-  ELSE LET one == Complete(1, ms[k], Len(hist) + k, [w |-> acc.w, r |-> acc.r, cb |-> acc.cb, err |-> FALSE])
-       IN ReadAll(ms, k + 1, [w |-> one.w, r |-> one.r, cb |-> one.cb, nerr |-> acc.nerr + (IF one.err THEN 1 ELSE 0)])
+  ELSE LET idx == Len(hist) + Len(acc.arr) + 1
+           acc1 == [acc EXCEPT !.arr = Append(@, ms[k].m)] IN
+    IF ms[k].slow THEN [acc1 EXCEPT !.stop = k]
+    ELSE LET one == Complete(1, lst, ms[k].m, idx, [w |-> acc.w, r |-> acc.r, cb |-> acc.cb, err |-> FALSE],
+                             SkipDoneFutures)
+         IN ReadAll(ms, k + 1, [acc1 EXCEPT !.w = one.w, !.r = one.r, !.cb = one.cb,
+                                            !.nerr = @ + (IF one.err THEN 1 ELSE 0), !.fin = @ \cup {idx}])
 
-Read(conn, rest) ==
-  LET res == ReadAll(IF conn \in dead THEN <<>> ELSE buf[conn], 1, [w |-> wst, r |-> wres, cb |-> <<>>, nerr |-> 0]) IN
+\* the effects of a reader step that went through ms starting from acc0
+ReaderStep(conn, ms, acc0, rest) ==
+  LET res == ReadAll(ms, 1, acc0) IN
   /\ wst' = res.w
   /\ wres' = res.r
   /\ ready' = rest \o res.cb
-  /\ buf' = [buf EXCEPT ![conn] = <<>>]
-  /\ rsched' = [rsched EXCEPT ![conn] = FALSE]
-  /\ ObsHandled(IF conn \in dead THEN <<>> ELSE buf[conn], res.nerr)
-  /\ UNCHANGED <<dueNow, lst, wspec, cpc, creq, mustc, expiring, armed, sfail, dead, nfed, ncancel, ndue, nsf>>
+  /\ IF res.stop = 0
+       THEN /\ buf' = [buf EXCEPT ![conn] = <<>>]
+            /\ rsched' = [rsched EXCEPT ![conn] = FALSE]
+            /\ susp' = [susp EXCEPT ![conn] = <<>>]
+       ELSE /\ buf' = [buf EXCEPT ![conn] = SubSeq(ms, res.stop + 1, Len(ms))]
+            /\ rsched' = [rsched EXCEPT ![conn] = TRUE]       \* the reader is not waiting for data
+            /\ susp' = [susp EXCEPT ![conn] =
+                          <<[m |-> ms[res.stop].m, idx |-> Len(hist) + Len(res.arr),
+                             snap |-> SelectSeq(lst, LAMBDA x : res.w[x] = "pending"), rel |-> FALSE]>>]
+  /\ ObsHandled(res.arr, res.fin, res.nerr)
+  /\ UNCHANGED <<dueNow, lst, wspec, cpc, creq, mustc, expiring, armed, sfail, dead, nfed, ncancel, ndue, nsf, nslow>>
+
+Read(conn, rest) ==
+  ReaderStep(conn, IF conn \in dead THEN <<>> ELSE buf[conn],
+             [w |-> wst, r |-> wres, cb |-> <<>>, nerr |-> 0, arr |-> <<>>, fin |-> {}, stop |-> 0], rest)
+
+\* the listener returns: the waiters of the suspended message are completed, then the reader goes on
+Resume(conn, rest) ==
+  LET s == susp[conn][1]
+      one == IF LiveListAtCompletion
+               THEN Complete(1, lst, s.m, s.idx, [w |-> wst, r |-> wres, cb |-> <<>>, err |-> FALSE], SkipDoneFutures)
+               ELSE Complete(1, s.snap, s.m, s.idx, [w |-> wst, r |-> wres, cb |-> <<>>, err |-> FALSE], FALSE)
+  IN ReaderStep(conn, IF conn \in dead THEN <<>> ELSE buf[conn],
+                [w |-> one.w, r |-> one.r, cb |-> one.cb, nerr |-> (IF one.err THEN 1 ELSE 0), arr |-> <<>>,
+                 fin |-> {s.idx}, stop |-> 0], rest)
 
 \* done-callback _remove_response_future: one slot after the future became done
 Remove(c, rest) ==
   /\ lst' = SelectSeq(lst, LAMBDA x : x # c)
   /\ ready' = rest
-  /\ UNCHANGED <<dueNow, buf, rsched, wst, wres, wspec, cpc, creq, mustc, expiring, armed, sfail, dead, nfed, ncancel, ndue, nsf>>
+  /\ UNCHANGED <<dueNow, buf, rsched, wst, wres, wspec, cpc, creq, mustc, expiring, armed, sfail, dead, susp, nfed, ncancel, ndue, nsf, nslow>>
   /\ ObsSame
 
 \* the caller resumes from `await future`
 Wake(c, rest) ==
   IF cpc[c] # "waiting" THEN
     /\ ready' = rest
-    /\ UNCHANGED <<dueNow, buf, rsched, lst, wst, wres, wspec, cpc, creq, mustc, expiring, armed, sfail, dead, nfed, ncancel, ndue, nsf>>
+    /\ UNCHANGED <<dueNow, buf, rsched, lst, wst, wres, wspec, cpc, creq, mustc, expiring, armed, sfail, dead, susp, nfed, ncancel, ndue, nsf, nslow>>
     /\ ObsSame
   ELSE
     /\ ready' = rest
-    /\ UNCHANGED <<dueNow, buf, rsched, lst, wst, wres, wspec, creq, mustc, expiring, sfail, dead, nfed, ncancel, ndue, nsf>>
+    /\ UNCHANGED <<dueNow, buf, rsched, lst, wst, wres, wspec, creq, mustc, expiring, sfail, dead, susp, nfed, ncancel, ndue, nsf, nslow>>
     /\ IF wst[c] = "cancelled" \/ mustc[c]
          THEN \* CancelledError at the await; asyncio.Timeout.__aexit__ turns it into TimeoutError iff the
               \* timeout's own cancel() is the only request (timeouts.py); wait_for_* then calls
@@ -414,13 +480,13 @@ Wake(c, rest) ==
 TimerFires(c, rest) ==
   IF ~armed[c] THEN                 \* the handle was cancelled when the caller left the context
     /\ ready' = rest
-    /\ UNCHANGED <<dueNow, buf, rsched, lst, wst, wres, wspec, cpc, creq, mustc, expiring, armed, sfail, dead, nfed, ncancel, ndue, nsf>>
+    /\ UNCHANGED <<dueNow, buf, rsched, lst, wst, wres, wspec, cpc, creq, mustc, expiring, armed, sfail, dead, susp, nfed, ncancel, ndue, nsf, nslow>>
     /\ ObsSame
   ELSE
     /\ armed' = [armed EXCEPT ![c] = FALSE]
     /\ expiring' = [expiring EXCEPT ![c] = TRUE]
     /\ TaskCancel(c, rest)
-    /\ UNCHANGED <<dueNow, buf, rsched, lst, wres, wspec, sfail, dead, nfed, ncancel, ndue, nsf>>
+    /\ UNCHANGED <<dueNow, buf, rsched, lst, wres, wspec, sfail, dead, susp, nfed, ncancel, ndue, nsf, nslow>>
     /\ ObsSame
 
 Run ==
@@ -431,14 +497,16 @@ Run ==
          [] h.k = "hop"   -> Hop(h.c, h.n, rest)
          [] h.k = "feed"  -> FeedData(h.conn, h.ms, rest)
          [] h.k = "read"  -> Read(h.conn, rest)
+         [] h.k = "resume" -> Resume(h.conn, rest)
          [] h.k = "rm"    -> Remove(h.c, rest)
          [] h.k = "wake"  -> Wake(h.c, rest)
          [] h.k = "tmo"   -> TimerFires(h.c, rest)
 
 Next ==
   \/ \E c \in Callers, s \in Specs, api \in Apis, fails \in BOOLEAN : Reg(c, s, api, fails)
-  \/ \E b \in Batches : Feed(b)
+  \/ \E b \in Batches, sl \in 0..MaxBatch : Feed(b, sl)
   \/ \E c \in Callers : Cancel(c) \/ Due(c)
+  \/ \E conn \in Conns : Release(conn)
   \/ Observe
   \/ DStep
   \/ Run
@@ -449,22 +517,26 @@ Spec == Init /\ [][Next]_vars
 \* Properties (observation layer only)
 
 Asked(c) == regAt[c] > 0
-Answers(c) == {i \in regAt[c]..Len(hist) : Match(cspec[c], hist[i])}
+\* the messages that answer c: those that came in after it asked ...
+Must(c) == {i \in regAt[c]..Len(hist) : Match(cspec[c], hist[i])}
+\* ... and, possibly, one that was being handled at that moment (its waiters not yet completed)
+May(c) == Must(c) \cup {i \in infl[c] : Match(cspec[c], hist[i])}
 
 \* a request completes only with a message of the expected type, from the expected
-\* server/peer, carrying the expected field values, handled after the request was made
+\* server/peer, carrying the expected field values, that was not finished before the request was made
 OnlyMatchingOf(c) ==
-  out[c].kind = "result" => (Asked(c) /\ out[c].j \in Answers(c))
+  out[c].kind = "result" => (Asked(c) /\ out[c].j \in May(c))
 OnlyMatching == \A c \in Callers : OnlyMatchingOf(c)
 
 \* ... and with the first such message
 FirstMatchingOf(c) ==
-  (out[c].kind = "result" /\ Asked(c) /\ out[c].j \in Answers(c)) => \A i \in Answers(c) : i >= out[c].j
+  (out[c].kind = "result" /\ Asked(c) /\ out[c].j \in May(c)) => \A i \in Must(c) : i >= out[c].j
 FirstMatching == \A c \in Callers : FirstMatchingOf(c)
 
-\* every request pending when an answering message is handled is completed by it: once the
-\* loop is quiescent no caller is still waiting although an answer was handled since it asked
-AnsweredOf(c) == (Asked(c) /\ out[c].kind = "none") => Answers(c) = {}
+\* every request pending when an answering message is handled is completed by it: once the loop is
+\* quiescent no caller is still waiting although the handling of a message that came in after it
+\* asked, and answers it, is finished
+AnsweredOf(c) == (Asked(c) /\ out[c].kind = "none") => Must(c) \cap fin = {}
 AllAnsweredCompleted == quiet => \A c \in Callers : AnsweredOf(c)
 
 \* each at most once
